@@ -16,6 +16,10 @@ package main
 //	iface:T.M         a call through an exported interface type of the package (FileSys, Dirent, File, AuthFile)
 //	ret               the method returns
 //
+// Conditions are followed the way Go evaluates them (&&, ||, ! short-circuit; a tagless switch is its
+// if-chain; if-with-init is the statement plus the if), and a repeated read of the same field with no write
+// of it and no Lock/Unlock of its variable in between is recorded once.
+//
 // Variables are numbered v0, v1, ... by first appearance in the path; exported field names are
 // kept (they are API), unexported ones become their index.  Everything is resolved through
 // go/types objects: what a thing is called - local variables, unexported helpers, unexported
@@ -458,40 +462,56 @@ func (g *slGen) stmt(paths []*slPath, st ast.Stmt) []*slPath {
 		paths = g.block(paths, x)
 	case *ast.IfStmt:
 		paths = g.stmt(paths, x.Init)
-		paths = g.expr(paths, x.Cond, false)
-		thenP := g.block(slCopy(paths), x.Body)
-		elseP := paths
+		t, f := g.cond(paths, x.Cond)
+		thenP := g.block(t, x.Body)
+		elseP := f
 		if x.Else != nil {
-			elseP = g.stmt(paths, x.Else)
+			elseP = g.stmt(f, x.Else)
 		}
 		paths = append(thenP, elseP...)
 	case *ast.SwitchStmt:
+		// a switch is the if-chain it abbreviates: the cases' conditions are evaluated in order, each only
+		// when the earlier ones were false; default (wherever written) comes last
 		paths = g.stmt(paths, x.Init)
 		paths = g.expr(paths, x.Tag, false)
 		var out []*slPath
-		hasDefault := false
+		var def *ast.CaseClause
+		rest := paths
 		for _, cc := range x.Body.List {
 			c := cc.(*ast.CaseClause)
 			if c.List == nil {
-				hasDefault = true
+				def = c
+				continue
 			}
-			br := g.exprs(slCopy(paths), c.List)
-			for _, s := range c.Body {
-				br = g.stmt(br, s)
+			var hit []*slPath
+			for _, e := range c.List {
+				var t []*slPath
+				if x.Tag == nil {
+					t, rest = g.cond(rest, e)
+				} else {
+					rest = g.expr(rest, e, false)
+					t = slCopy(rest)
+				}
+				hit = append(hit, t...)
 			}
-			out = append(out, br...)
+			for _, st := range c.Body {
+				hit = g.stmt(hit, st)
+			}
+			out = append(out, hit...)
 		}
-		if !hasDefault {
-			out = append(out, paths...)
+		if def != nil {
+			for _, st := range def.Body {
+				rest = g.stmt(rest, st)
+			}
 		}
-		paths = out
+		paths = append(out, rest...)
 	case *ast.ForStmt:
 		paths = g.stmt(paths, x.Init)
-		paths = g.expr(paths, x.Cond, false)
-		once := g.block(slCopy(paths), x.Body)
+		t, f := g.cond(paths, x.Cond)
+		once := g.block(t, x.Body)
 		once = g.stmt(once, x.Post)
-		once = g.expr(once, x.Cond, false)
-		paths = append(paths, once...)
+		t2, f2 := g.cond(once, x.Cond)
+		paths = append(append(f, f2...), t2...) // t2: would go round again; followed as leaving the loop
 	case *ast.RangeStmt:
 		paths = g.expr(paths, x.X, false)
 		once := g.block(slCopy(paths), x.Body)
@@ -520,7 +540,53 @@ func (g *slGen) stmt(paths []*slPath, st ast.Stmt) []*slPath {
 	return paths
 }
 
+// a condition: the paths on which it is true and those on which it is false.  && || ! are evaluated the way
+// Go does (the right operand only when the left one does not decide), so `if a || b {X}` and
+// `if a {X} else if b {X}` have the same paths; anything else is evaluated once and may go either way.
+func (g *slGen) cond(paths []*slPath, e ast.Expr) (t, f []*slPath) {
+	switch x := e.(type) {
+	case nil:
+		return paths, nil // `for {` : always true
+	case *ast.ParenExpr:
+		return g.cond(paths, x.X)
+	case *ast.UnaryExpr:
+		if x.Op.String() == "!" {
+			t, f = g.cond(paths, x.X)
+			return f, t
+		}
+	case *ast.BinaryExpr:
+		switch x.Op.String() {
+		case "||":
+			at, af := g.cond(paths, x.X)
+			bt, bf := g.cond(af, x.Y)
+			return append(at, bt...), bf
+		case "&&":
+			at, af := g.cond(paths, x.X)
+			bt, bf := g.cond(at, x.Y)
+			return bt, append(af, bf...)
+		}
+	}
+	paths = g.expr(paths, e, false)
+	return slCopy(paths), paths
+}
+
+func slIsLogic(e ast.Expr) bool {
+	switch x := e.(type) {
+	case *ast.ParenExpr:
+		return slIsLogic(x.X)
+	case *ast.UnaryExpr:
+		return x.Op.String() == "!"
+	case *ast.BinaryExpr:
+		return x.Op.String() == "||" || x.Op.String() == "&&"
+	}
+	return false
+}
+
 func (g *slGen) expr(paths []*slPath, e ast.Expr, lhs bool) []*slPath {
+	if slIsLogic(e) { // a boolean computed for its value: same evaluation order, both outcomes go on
+		t, f := g.cond(paths, e)
+		return append(t, f...)
+	}
 	switch x := e.(type) {
 	case nil, *ast.Ident, *ast.BasicLit:
 	case *ast.CallExpr:
@@ -663,31 +729,48 @@ func (g *slGen) call(paths []*slPath, call *ast.CallExpr, lhs []ast.Expr) []*slP
 
 // ---- canonical text of a trace
 
+// Reads are idempotent: a read of v.F is recorded once per epoch - until v.F is written or a mutex method is
+// called on v - so `if x.F == nil {..}; y := x.F` and `y := x.F; if y == nil {..}` have the same trace, while a
+// read that moves across a Lock/Unlock of v or across a write of the field still shows.
 func slTrace(p *slPath) string {
 	num := map[types.Object]int{}
-	var b strings.Builder
-	for i, e := range p.evs {
-		if i > 0 {
-			b.WriteByte(' ')
+	type rd struct {
+		o types.Object
+		f string
+	}
+	seen := map[rd]bool{}
+	var parts []string
+	for _, e := range p.evs {
+		switch {
+		case e.kind == "get":
+			if seen[rd{e.obj, e.fld}] {
+				continue
+			}
+			seen[rd{e.obj, e.fld}] = true
+		case e.kind == "set":
+			delete(seen, rd{e.obj, e.fld})
+		case e.obj != nil: // a mutex method on e.obj
+			for k := range seen {
+				if k.o == e.obj {
+					delete(seen, k)
+				}
+			}
 		}
-		b.WriteString(e.kind)
+		t := e.kind
 		if e.obj != nil {
 			n, ok := num[e.obj]
 			if !ok {
 				n = len(num)
 				num[e.obj] = n
 			}
-			fmt.Fprintf(&b, ":v%d", n)
-		} else if e.kind == "get" || e.kind == "set" || e.kind == "lock" || e.kind == "unlock" {
-			b.WriteString(":?")
+			t += fmt.Sprintf(":v%d", n)
+		} else if e.kind == "get" || e.kind == "set" {
+			t += ":?"
 		}
-		b.WriteString(e.fld)
+		parts = append(parts, t+e.fld)
 	}
-	if b.Len() > 0 {
-		b.WriteByte(' ')
-	}
-	b.WriteString("ret")
-	return b.String()
+	parts = append(parts, "ret")
+	return strings.Join(parts, " ")
 }
 
 func genSessLock(c *Ctx) (string, error) {
